@@ -160,7 +160,7 @@ class World:
         FakeDatetime._now = base
         return self.clock
 
-    def snapshot(self, ui, fileset, repo=None, whole_second=False, note=None):
+    def snapshot(self, ui, fileset, repo=None, whole_second=False, note=None, path_order=None):
         """fileset: rel path -> bytes (the files under the world's source directory are rewritten to exactly this set).
         → dict(sid, name, uploaded locations, model op)"""
         u = self.users[ui]
@@ -172,7 +172,11 @@ class World:
         repo = repo or self.repo(ui)
         ts = self.tick(whole_second)
         before = len(self.backend.trace)
-        res = R.snapshot(repo, [self.src], note=note)
+        paths = [self.src]
+        if path_order is not None:
+            # the same files handed over as explicit path arguments in a caller-chosen order (another enumeration order of one tree)
+            paths = [self.src / rel for rel in path_order]
+        res = R.snapshot(repo, paths, note=note)
         trace = self.backend.trace[before:]
         rec = repo.props.chunker
         stream = [self.cid(c) for c in rec.chunks]
